@@ -97,7 +97,7 @@ def gen_enum(rng, pkg, name, opts):
     consts = []
     if base == "string":
         pool = list(STR_VALUES)
-        if opts.get("tricky_enum_values") and rng.random() < 0.5:
+        if opts.get("tricky_enum_values") and rng.random() < 0.12:
             pool = pool[:3] + TRICKY_STR_VALUES
         for i, v in enumerate(rng.sample(pool, min(n, len(pool)))):
             consts.append(["%s%s%d" % (name, rng.choice(["A", "Z", "M"]), i), json.dumps(v), v])
